@@ -82,15 +82,16 @@ func init() {
 		panicRules(grpMapDecode))
 
 	register("C02",
-		"Structural agreement of decoder and encoder conventions: TABLE.keys (both halves read the shared key variables), PAIR.derived (lenAttrPrefix tracks attrPrefix), TABLE.partition (attribute / text / element partition of a map's keys is the same predicate in both scans), ESC.flow (every Map value reaches the output escaped unless xmlEscapeChars is known false), TABLE.escape (entity table, order, no unescaped early return), ORDER (sorted emission), WALK.arms (every list member and collected child is encoded). Not decided: equality of the second decode with the first; well-formedness as a whole."+levelNote,
+		"Structural agreement of decoder and encoder conventions: TABLE.keys (both halves read the shared key variables), PAIR.derived (lenAttrPrefix tracks attrPrefix), TABLE.partition (attribute / text / element partition of a map's keys is the same predicate in both scans), ESC.flow (every Map value reaches the output escaped unless xmlEscapeChars is known false), TABLE.escape (entity table, order, no unescaped early return), ORDER (sorted emission), WALK.arms (every list member and collected child is encoded), TAGS.protocol (path-sensitive typestate of the Map element encoder: on every path feasible for a decoder-shaped value the buffer writes follow start tag, attributes, close, content, end tag / self-close; start and end tag name the same parameter; no successful return leaves an open element), TAGS.content (on no path is the element completed while its text entry or scalar value — string, number or boolean, as float/bool casting produces — has not been written). Not decided: equality of the second decode with the first; well-formedness of names and of the sequence encoder's output."+levelNote,
 		nil,
-		ruleTableKeys, rulePairDerived, ruleTablePartition, ruleEsc, ruleTableEscape, ruleOptExcl,
+		ruleTagProtocol, func(p *Prog, r *Report) { ruleTagContent(p, r, "map") }, ruleTableKeys, rulePairDerived, ruleTablePartition, ruleEsc, ruleTableEscape, ruleOptExcl,
 		func(p *Prog, r *Report) { ruleOrder(p, r, grpMapEncode) },
 		func(p *Prog, r *Report) { ruleWalkArms(p, r, []string{"mxj.marshalMapToXmlIndent"}) })
 
 	register("C03",
-		"Structural clauses of 'encoding a JSON-shaped value as XML preserves all data': WALK.arms (every list member encoded in order under its key, every collected child encoded, AnyXml encodes every member of a list value), TABLE.partition, ESC.flow, ERR.path on the Map encoders and AnyXml/AnyXmlIndent (an element encoder error cannot be overwritten or dropped). Not decided: decode(encode(m)) ≅ m; well-formedness for arbitrary key strings."+levelNote,
+		"Structural clauses of 'encoding a JSON-shaped value as XML preserves all data': WALK.arms (every list member encoded in order under its key, every collected child encoded, AnyXml encodes every member of a list value), TABLE.partition, ESC.flow, ERR.path on the Map encoders and AnyXml/AnyXmlIndent (an element encoder error cannot be overwritten or dropped), TAGS.protocol (typestate of the element encoder: every path feasible for a JSON-shaped value writes a complete, properly nested element), TAGS.content (no scalar value or text entry is dropped: a write computed from it precedes the end of the element on every path). Not decided: decode(encode(m)) ≅ m; well-formedness for arbitrary key strings."+levelNote,
 		nil,
+		ruleTagProtocol, func(p *Prog, r *Report) { ruleTagContent(p, r, "map") },
 		func(p *Prog, r *Report) { ruleWalkArms(p, r, []string{"mxj.marshalMapToXmlIndent"}) },
 		ruleAnyXmlList, ruleTablePartition, ruleEsc,
 		func(p *Prog, r *Report) {
@@ -98,8 +99,9 @@ func init() {
 		})
 
 	register("C04",
-		"Structural clauses of the MapSeq round trip: PAIR.seq (every token kind gets a fresh sequence number that is advanced in the same block; attributes take their index; the child collection skips exactly the attribute and sequence keys), ORDER on the sequence encoder (attributes and children are sorted by sequence number before any write), DECODE.sibling and WALK.arms for the sequence codec, SHAPE.seq (decoder output has the shape the encoder asserts), PANIC.* on both halves, WRAP.compose for BeautifyXml. Not decided: token-stream equality."+levelNote,
+		"Structural clauses of the MapSeq round trip: PAIR.seq (every token kind gets a fresh sequence number that is advanced in the same block; attributes take their index; the child collection skips exactly the attribute and sequence keys), ORDER on the sequence encoder (attributes and children are sorted by sequence number before any write), DECODE.sibling and WALK.arms for the sequence codec, SHAPE.seq (decoder output has the shape the encoder asserts), PANIC.* on both halves, WRAP.compose for BeautifyXml, TAGS.seqprotocol (token-level typestate of the sequence encoder: < name, blank name = quoted value, then either > content </ name > or />, comment / directive / processing-instruction forms; no successful return leaves an open element), TAGS.content (the text entry and the scalar value are written on every path that completes the element, for strings and for the numbers / booleans casting produces). Not decided: token-stream equality."+levelNote,
 		nil,
+		ruleTagProtocolSeq, func(p *Prog, r *Report) { ruleTagContent(p, r, "seq") },
 		rulePairSeq,
 		func(p *Prog, r *Report) { ruleOrder(p, r, concat(grpSeqEncode, grpBeautify)) },
 		func(p *Prog, r *Report) { ruleDecodeSibling(p, r, []string{"mxj.xmlSeqToMapParser"}) },
@@ -110,9 +112,9 @@ func init() {
 		panicRules(concat(grpSeqDecode, grpSeqEncode, grpBeautify)))
 
 	register("C05",
-		"Structural clauses of 'special characters survive; invalid output is an error': ESC.flow (value sinks of both encoders), TABLE.escape, OPT.excl (encoder- and decoder-side escaping never both on), VALID.coupling (each of the four encoders validates the very bytes it returns, under xmlCheckIsValid), ERR.path on the four encoders (an encoder or validator error always reaches the caller). Not decided: exact value recovery, absence of double escaping for already-escaped input, well-formedness of all output."+levelNote,
+		"Structural clauses of 'special characters survive; invalid output is an error': ESC.flow (value sinks of both encoders), TABLE.escape, OPT.excl (encoder- and decoder-side escaping never both on), VALID.coupling (each of the four encoders validates the very bytes it returns, under xmlCheckIsValid), ERR.path on the four encoders (an encoder or validator error always reaches the caller), TAGS.protocol / TAGS.seqprotocol (the markup the two element encoders write around the escaped values is a properly nested start tag / attributes / content / end tag sequence on every path). Not decided: exact value recovery, absence of double escaping for already-escaped input, well-formedness of names."+levelNote,
 		nil,
-		ruleEsc, ruleTableEscape, ruleOptExcl, ruleValidCoupling,
+		ruleTagProtocol, ruleTagProtocolSeq, ruleEsc, ruleTableEscape, ruleOptExcl, ruleValidCoupling,
 		func(p *Prog, r *Report) {
 			ruleErr(p, r, []string{"mxj.Map.Xml", "mxj.Map.XmlIndent", "mxj.MapSeq.Xml", "mxj.MapSeq.XmlIndent"}, "the four XML encoders")
 		})
@@ -152,7 +154,9 @@ func init() {
 	register("C08",
 		"Structural clauses of key search and sub-key filters: WALK.total (hasKey and hasKeyPath visit every map entry and list member), WALK.collect, PAIR.count (ValuesForKey), INFL.filter (sub-keys reach only the predicate; no sub-keys means no filtering; the predicate is read-only), INFL.crumb (child paths never contain the searched key), INFL.metric (shortest path by segment count), INFL.cover (sub-key specifications are split on fieldSep), EFFECT.recv for the query methods. Not decided: set equality between ValuesForKey, PathsForKey and ValuesForPath; the predicate's truth table."+levelNote,
 		nil,
-		func(p *Prog, r *Report) { ruleWalkTotal(p, r, []walkerSpec{{"mxj.hasKey", nil}, {"mxj.hasKeyPath", nil}}) },
+		func(p *Prog, r *Report) {
+			ruleWalkTotal(p, r, []walkerSpec{{"mxj.hasKey", nil}, {"mxj.hasKeyPath", nil}})
+		},
 		func(p *Prog, r *Report) { ruleWalkCollect(p, r, []string{"mxj.hasKey"}) },
 		func(p *Prog, r *Report) { rulePairCount(p, r, []string{"mxj.Map.ValuesForKey"}) },
 		func(p *Prog, r *Report) { ruleInflFilter(p, r, []string{"mxj.hasKey", "mxj.valuesForKeyPath"}) },
@@ -186,7 +190,9 @@ func init() {
 		rulePairUpdate,
 		func(p *Prog, r *Report) { ruleWalkProgress(p, r, []string{"mxj.updateValuesForKeyPath"}) },
 		ruleWalkHandover,
-		func(p *Prog, r *Report) { ruleInflFilter(p, r, []string{"mxj.updateValuesForKeyPath", "mxj.updateValue"}) },
+		func(p *Prog, r *Report) {
+			ruleInflFilter(p, r, []string{"mxj.updateValuesForKeyPath", "mxj.updateValue"})
+		},
 		ruleInflFieldSep,
 		panicRules([]string{"mxj.Map.UpdateValuesForPath"}))
 
@@ -286,7 +292,9 @@ func init() {
 			ruleFwdVariadic(p, r, func(n string) bool { return hasPrefixAny(n, "j2x.", "x2j.", "x2jw.") })
 		},
 		func(p *Prog, r *Report) { ruleInflCrumb(p, r, []string{"x2jw.hasKeyPath"}) },
-		func(p *Prog, r *Report) { ruleWalkTotal(p, r, []walkerSpec{{"x2jw.hasKey", nil}, {"x2jw.hasKeyPath", nil}}) },
+		func(p *Prog, r *Report) {
+			ruleWalkTotal(p, r, []walkerSpec{{"x2jw.hasKey", nil}, {"x2jw.hasKeyPath", nil}})
+		},
 		func(p *Prog, r *Report) { ruleWalkProgress(p, r, []string{"x2jw.valuesFromKeyPath"}) },
 		func(p *Prog, r *Report) { ruleWalkCollect(p, r, []string{"x2jw.hasKey", "x2jw.valuesFromKeyPath"}) },
 		func(p *Prog, r *Report) { ruleShortestMetric(p, r, []string{"x2jw.PathForKeyShortest"}) },
@@ -304,4 +312,5 @@ func init() {
 			ruleErrPkg(p, r, all, []string{"j2x.", "x2j.", "x2jw."})
 		},
 		func(p *Prog, r *Report) { ruleOptDead(p, r, "x2jw") })
+
 }
